@@ -80,7 +80,7 @@ CHECKS['C09'] = {
             'by bottom-up summaries) is classified against the commit point of each strong-guarantee operation (list/dispatcher/heterogeneous '
             'listener management, remover utilities, enqueue, peekEvent, copy assignment): no fault point reachable after the first observable write; '
             'noexcept functions and destructors reach no fault point; mutexes only through scope objects; traversal/dispatch write no container state; '
-            'delegating copy constructor and copy-and-swap assignment; placement-new before destructor publication. Six known findings (K1).',
+            'delegating copy constructor and copy-and-swap assignment; placement-new before destructor publication (slots; AnyData payload not built after a delegated-to constructor published the table); processOne/takeEvent take exactly one element out of the queue (what a throwing listener can lose). Six known findings (K1).',
     'note': COMMON_NOTE + 'Not decided: behaviour of user types during unwinding; standard-library internals beyond the frozen effect table; the CFG has no exception edges (exceptions are handled by these rules only).',
     'technique': 'call-graph effect summaries (may-allocate / may-run-user-code), commit-point reachability over clang CFG, noexcept effect rule',
 }
@@ -90,7 +90,7 @@ CHECKS['C14'] = {
             'very PrototypeInfo whose ArgsTuple it uses and the slot is never copied out; doEnqueue stores type, tag and dispatcher of one PrototypeInfo '
             'and doDispatchItem casts to that type; every placement-new fits its buffer (layout facts); handle index and list slot agree; '
             'no use-after-move on the heterogeneous paths (two known findings, K2); PrototypeInfo coherence of every instantiation (found and fixed G9); '
-            'value categories handed on to the prototype selection; slot interpretation and listener-management mapping on the heterogeneous classes.',
+            'value categories handed on to the prototype selection; slot interpretation and listener-management mapping on the heterogeneous classes; the doProcessIf levels reachable from processIf<F> cover exactly the prototypes F is callable with (witness predicates); invocation/enumeration hold a local owning pointer to the per-prototype list.',
     'note': COMMON_NOTE + 'Not decided: overload subtleties beyond the generated families; alignment of over-aligned payloads.',
     'technique': 'generated static_assert families vs independent oracle, dominance of tag test over typed view, template-argument/enumerator agreement from class facts, use-after-move',
 }
@@ -116,12 +116,12 @@ CHECKS['C12'] = {
     'text': 'Gate dominance (listener invocation only on the true edge of the mixin chain, evaluated before lookup) in both dispatchers and the '
             'heterogeneous doDispatch; mixin chain extracted as a conjunction in list order; filters and listeners receive the same parameter objects '
             '(lvalue references, no copy); mixinBeforeDispatch formula equals the forEachIf result with lvalue arguments; both operator() variants call '
-            'canContinueInvoking after every callback with the same parameters and stop on false; ConditionalFunctor and ArgumentAdapter shapes.',
+            'canContinueInvoking after every callback with the same parameters and stop on false; the hook invoked at each level of the mixin chain is that level\'s own (two known findings, K3: an inherited filter hook runs twice); ConditionalFunctor and ArgumentAdapter shapes and by-value storage of what they wrap.',
     'note': COMMON_NOTE + 'Not decided: what filters do to values, conversion semantics of user types; "removed filters never run again" is C01/C02 on the filter list.',
     'technique': 'dominance over clang CFG, boolean formula extraction with truth-table equivalence, def-use identity of argument objects',
 }
 CHECKS['C13'] = {
-    'text': 'Every splice overload of OrderedQueueList performs the base splice with its own arguments and then doSort on every path; only whitelisted '
+    'text': 'OrderedQueueList: the position parameter of the whole-list splice reaches the insertion, a recognised base splice is followed by doSort on every path (an unrecognised insertion scheme is analysis-broken, not a violation), get() only on slots established non-empty; only whitelisted '
             'non-inserting base members are applied to ordered lists (emplace_back only on locals); doSort is std::list::sort with the library lambda; '
             'the lambda\'s extracted formula is checked exhaustively (8 emptiness x 13 orderings of three slots) to be a strict weak order that equals compare '
             'on full slots, sorts emptied slots first and evaluates get() only on full slots; the slot typestate interpretation of the queue instantiated with the ordered list (an element enters the list only when it holds its event); SelectQueueList witness.',
@@ -164,7 +164,7 @@ CHECKS['C08'] = {
     'text': 'Slot EMPTY/FULL protocol by abstract interpretation over all processing functions (every clear on a FULL slot exactly once, no set on FULL, only '
             'EMPTY slots recycled), slot destructor/clear/empty/set shapes and commonDtor<T> type identity, owner types not copyable (class facts), node-cycle '
             'breaking: destructor and move assignment run doFreeAllNodes first, doFreeAllNodes walks from head cutting links on every node, copy constructor '
-            'delegates; raw ownership of LargeData (single new, matching deleter, delete iff owned, move leaves source empty) and AnyData (free iff table, move via table).',
+            'delegates; raw ownership of LargeData (single new, matching deleter, delete iff owned, move leaves source empty) and AnyData (free iff table, move via table); inside the ordered queue list a slot is read (get) only where it is established non-empty.',
     'note': COMMON_NOTE + 'Not decided: leaks through user types; when exactly removed callbacks are released beyond the ownership shape.',
     'technique': 'typestate abstract interpretation (slots), dominance/post-dominance, loop-idiom recognition, class special-member facts',
 }
